@@ -151,6 +151,12 @@ class FieldCompositeModel(FieldModel):
     def post_randomize(self, visited):
         """Called during the randomization process to propagate `post_randomize` event"""
         
+        # Lists take their solved size before the callback 
+        # runs, so that it sees the final values
+        for f in self.field_l:
+            if hasattr(f, "trim_to_size"):
+                f.trim_to_size()
+        
         # Perform a phase callback if available
         if self.is_used_rand and self.rand_if is not None:
             self.rand_if.do_post_randomize()
